@@ -76,7 +76,13 @@ Atoms == { Fn(op, <<Col(0), l>>) : op \in {"gt", "gt_eq", "lt", "lt_eq", "eq", "
          \cup { Fn("gt", <<Fn("plus", <<Col(0), Col(1)>>), LitI(2)>>) }    \* a term the narrowing does not understand
          \cup { Fn("in_list", <<Col(0), [list |-> l]>>) : l \in { <<PV("int", 2)>>, <<PV("int", 0), PV("int", 4)>>, <<PV("float", 2), PV("float", 3)>>, <<PV("int", 1), PV("float", 2)>> } }
          \cup { Fn("in_list", <<Col(1), [list |-> <<PV("int", 1), PV("int", 3)>>]>>) }
+\* negations of compound predicates (De Morgan territory) over a few atoms, double negation, and a negated compound under AND
+NegAtoms == { Fn("gt", <<Col(0), LitI(2)>>), Fn("lt_eq", <<Col(0), LitI(2)>>), Fn("eq", <<Col(0), LitI(2)>>), Fn("gt", <<Col(0), Col(1)>>),
+              Fn("lt", <<Col(0), Col(1)>>), Fn("gt", <<Col(1), Col(0)>>), Fn("in_list", <<Col(0), [list |-> <<PV("int", 0), PV("int", 4)>>]>>), Fn("is_null", <<Col(0)>>) }
+NegCompound == { Fn("not", <<Fn(op, <<p, r>>)>>) : op \in {"and", "or"}, p \in NegAtoms, r \in NegAtoms }
 Predicates == Atoms \cup { Fn(op, <<p, r>>) : op \in {"and", "or"}, p \in Atoms, r \in Atoms } \cup { Fn("not", <<p>>) : p \in Atoms }
+              \cup NegCompound \cup { Fn("not", <<Fn("not", <<p>>)>>) : p \in NegAtoms }
+              \cup { Fn("and", <<Fn("lt_eq", <<Col(1), LitI(2)>>), n>>) : n \in NegCompound }
 (* ---- projections of a UNIQUE column (C14): which expressions keep the constraint ---------------- *)
 \* one column, every unary function and chains of two (the library keeps UNIQUE through the functions it lists
 \* as one-to-one: is_bijection); column types are value sets and intervals, so that distinct inputs abound
